@@ -176,6 +176,9 @@ class StringLiteral(Literal[str]):
     def __init__(self, token: Token, value: str):
         super().__init__(token, value)
 
+    def __str__(self) -> str:
+        return quote_string(self.value)
+
     def __eq__(self, other: object) -> bool:
         return isinstance(other, StringLiteral) and self.value == other.value
 
@@ -281,6 +284,16 @@ class RangeLiteral(Expression):
         stop = parse_primitive(env, tokens)
         tokens.eat(TOKEN_RPAREN)
         return RangeLiteral(token, start, stop)
+
+
+def quote_string(value: str) -> str:
+    """Return _value_ as a Liquid string literal.
+
+    Liquid string literals have no escape sequences. Everything between the quotes,
+    including backslashes and newlines, is the value of the string.
+    """
+    quote = '"' if "'" in value else "'"
+    return f"{quote}{value}{quote}"
 
 
 def parse_primitive(env: Environment, tokens: TokenStream) -> Expression:  # noqa: PLR0911
